@@ -11,7 +11,7 @@ git checkout -q -- brax
 PYTHONPATH=$wt timeout 600 /venv/bin/python demo$n.py > /tmp/demo_without.log 2>&1; without=$?
 echo "candidate $pid-$n: demo_with_patch_exit=$with demo_without_exit=$without tests_rc=$trc ($(tail -1 /tmp/tests_with.log))"
 if [ $with -eq 1 ] && [ $without -eq 0 ] && [ $trc -eq 0 ]; then
-  d=/verif/seeded/$pid-$n; mkdir -p $d
+  d=/verif/seeded/$pid-${SEEDPREFIX:-}$n; mkdir -p $d
   cp patch$n.diff $d/patch.diff; cp demo$n.py $d/demo.py; cp meta$n.json $d/agent_meta.json
   echo "$@" > $d/tests_run.txt; tail -1 /tmp/tests_with.log >> $d/tests_run.txt
   echo CONFIRMED
